@@ -118,7 +118,59 @@ func calleeIs(cc *ssa.CallCommon, fn *ssa.Function) bool {
 			}
 		}
 	}
+	// a closure called through the variable it was assigned to — the way a recursive function literal calls itself
+	// (var f func(…); f = func(…) { … f(…) … }): the variable's cell holds that one closure
+	if u, ok := cc.Value.(*ssa.UnOp); ok && u.Op == token.MUL {
+		var cell *ssa.Alloc
+		switch x := u.X.(type) {
+		case *ssa.Alloc:
+			cell = x
+		case *ssa.FreeVar:
+			cell = freeVarCell(x)
+		}
+		if cell != nil {
+			n, match := 0, false
+			for _, r := range *cell.Referrers() {
+				if st, isSt := r.(*ssa.Store); isSt && st.Addr == ssa.Value(cell) {
+					n++
+					if mc, isMC := st.Val.(*ssa.MakeClosure); isMC {
+						if g, isFn := mc.Fn.(*ssa.Function); isFn && origin(g) == origin(fn) {
+							match = true
+						}
+					}
+				}
+			}
+			if n == 1 && match {
+				return true
+			}
+		}
+	}
 	return false
+}
+
+// freeVarCell: the variable cell of the enclosing function a closure's free variable is bound to.
+func freeVarCell(fv *ssa.FreeVar) *ssa.Alloc {
+	cl := fv.Parent()
+	parent := cl.Parent()
+	if parent == nil {
+		return nil
+	}
+	idx := -1
+	for i, v := range cl.FreeVars {
+		if v == fv {
+			idx = i
+		}
+	}
+	for _, b := range parent.Blocks {
+		for _, ins := range b.Instrs {
+			if mc, ok := ins.(*ssa.MakeClosure); ok && mc.Fn == cl && idx >= 0 && idx < len(mc.Bindings) {
+				if a, isA := mc.Bindings[idx].(*ssa.Alloc); isA {
+					return a
+				}
+			}
+		}
+	}
+	return nil
 }
 
 // Callee is something a call site may be matched against: a concrete function
@@ -490,11 +542,22 @@ func boolResults(c *ssa.Call) []ssa.Value {
 // retVal resolves result #i of a Return. With a defer in the function go/ssa
 // spills results into local cells ("*t1 = v; rundefers; return *t0, *t1"): the
 // value is then the last store to the cell in the same block.
+// retPhiEnv: while a rule walks one path to a return (edgeLeadsStraightTo), the
+// operand each φ on that path was given; retVal answers with the operand, so
+// that `return cond1 && cond2` (a φ of constants and conditions) reads as the
+// constant it is on the path walked.
+var retPhiEnv map[*ssa.Phi]ssa.Value
+
 func retVal(r *ssa.Return, i int) ssa.Value {
 	if i < 0 || i >= len(r.Results) {
 		return nil
 	}
 	v := r.Results[i]
+	if phi, isPhi := v.(*ssa.Phi); isPhi && retPhiEnv != nil {
+		if x, known := retPhiEnv[phi]; known {
+			return x
+		}
+	}
 	u, ok := v.(*ssa.UnOp)
 	if !ok || u.Op != token.MUL {
 		return v
